@@ -314,12 +314,8 @@ func genRange(t *rapid.T) rangeCase {
 		switch rapid.IntRange(0, 9).Draw(t, n+"_ty") {
 		case 0, 1, 2, 3:
 			c.Keys = append(c.Keys, key{Kind: "int64", I: v})
-		case 4:
-			if v >= 0 {
-				c.Keys = append(c.Keys, key{Kind: "uint64", U: uint64(v)})
-			} else {
-				c.Keys = append(c.Keys, key{Kind: "uint64", U: uint64(v)}) // >= 2^63: beyond every interval
-			}
+		case 4: // negative v becomes a value >= 2^63: beyond every interval
+			c.Keys = append(c.Keys, key{Kind: "uint64", U: uint64(v)})
 		case 5, 6:
 			c.Keys = append(c.Keys, key{Kind: "string", S: strconv.FormatInt(v, 10)})
 		case 7:
@@ -350,10 +346,7 @@ func keyNumber(k key) (*big.Int, bool) {
 	if len(t) > 0 && (t[0] == '+' || t[0] == '-') {
 		t = t[1:]
 	}
-	if _, ok := atoiDigits(t); !ok && !(len(t) > 18 && strings.Trim(t, "0123456789") == "") {
-		return nil, false
-	}
-	if t == "" {
+	if t == "" || strings.Trim(t, "0123456789") != "" {
 		return nil, false
 	}
 	return new(big.Int).SetString(s, 10)
@@ -624,7 +617,7 @@ func checkCalendar(c calCase) (o pbt.Outcome) {
 			o.Skip = "date_range entries overlap (configuration not valid)"
 			return
 		}
-		if len(p) > 1 && c.Rule != "date_year" && p[0]/map[string]int{"date_month": 100, "date_day": 10000}[c.Rule] != p[len(p)-1]/map[string]int{"date_month": 100, "date_day": 10000}[c.Rule] {
+		if div := map[string]int{"date_year": 1, "date_month": 100, "date_day": 10000}[c.Rule]; div > 1 && p[0]/div != p[len(p)-1]/div {
 			crossYear = true
 		}
 		for _, x := range p {
@@ -807,8 +800,8 @@ func isAlnum(b byte) bool {
 	return isDigit(b) || b >= 'a' && b <= 'z' || b >= 'A' && b <= 'Z' || b >= 0x80
 }
 
-// canonicalDate: 'YYYY-MM-DD' alone or followed by ' ' / 'T' and a time part
-// (the two string spellings the property names). Returns the date fields.
+// canonicalDate: exactly 'YYYY-MM-DD' or 'YYYY-MM-DD hh:mm:ss' (the two string
+// spellings the property names). Returns the date fields.
 func canonicalDate(s string) (y, m, d int, ok bool) {
 	if len(s) < 10 {
 		return
@@ -821,14 +814,15 @@ func canonicalDate(s string) (y, m, d int, ok bool) {
 	if s[4] != '-' || s[7] != '-' {
 		return
 	}
-	if len(s) > 10 {
-		if s[10] != ' ' && s[10] != 'T' {
+	if len(s) != 10 {
+		// ' hh:mm:ss'
+		if len(s) != 19 || s[10] != ' ' || s[13] != ':' || s[16] != ':' {
 			return
 		}
-		rest := s[11:]
-		// hh:mm[:ss[.frac]]
-		if len(rest) < 5 || !isDigit(rest[0]) || !isDigit(rest[1]) || rest[2] != ':' || !isDigit(rest[3]) || !isDigit(rest[4]) {
-			return
+		for _, i := range []int{11, 12, 14, 15, 17, 18} {
+			if !isDigit(s[i]) {
+				return
+			}
 		}
 	}
 	y, _ = atoiDigits(s[0:4])
